@@ -253,6 +253,29 @@ def register_line(reg):
                 ('no-earlier-segment', forall('int', lambda t: Implies(And(t >= lo, t < lo + 2 * c.m, (t - lo) % 2 == 0),
                                                                        Not(seg_at(v, t, c.x, c.y)))))]
 
+    def no_vertex_steps(c):
+        # the point equals no vertex of line k: numpy's any() over the strided coordinate views, restated per cell
+        a = c.a
+        v, o = a.flat_lines, a.offsets
+        lo, hi = o[c.k], o[c.k + 1]
+        xs, ys = c.line_xs, c.line_ys
+        views = And(xs.off == v.off + lo, ys.off == v.off + lo + 1, xs.stride == 2, ys.stride == 2,
+                    xs.n * 2 == hi - lo, ys.n * 2 == hi - lo)
+        per_vertex = forall('int', lambda t: Implies(And(t >= lo, t + 1 < hi, (t - lo) % 2 == 0),
+                                                     Not(And(xs[(t - lo) // 2] == c.x, ys[(t - lo) // 2] == c.y))))
+        per_cell = forall('int', lambda t: Implies(And(t >= lo, t + 1 < hi, (t - lo) % 2 == 0),
+                                                   Not(And(v[t] == c.x, v[t + 1] == c.y))))
+        return [('line-views', views),
+                ('no-vertex-by-number', per_vertex),
+                ('no-vertex-by-cell', per_cell, ['hint:line-views', 'hint:no-vertex-by-number'])]
+
+    def seg_steps(c):
+        # the segment just tested (vertex number m of line k) does not contain the point
+        a = c.a
+        v, o = a.flat_lines, a.offsets
+        lo = o[c.k]
+        return [('this-segment-misses', Not(seg_at(v, lo + 2 * c.m, c.x, c.y)), ['inv:views', 'inv:range'])]
+
     reg.add(Contract(PT + '::_perform_intersects_line',
                      [('flat_points', Arr('float', finite=True)), ('flat_lines', Arr('float', finite=True)),
                       ('offsets', Arr('int', 'uint32')), ('inds', Arr('int', 'int64'))],
@@ -262,8 +285,11 @@ def register_line(reg):
                      loops={0: Loop(var='i', invariant=inv_i, keep_using={'done': ['inv:done', 'inv:this', 'inv:range'],
                                                                         'todo': ['inv:todo', 'inv:range']}),
                             1: Loop(var='k', invariant=inv_k),
-                            2: Loop(var='m', invariant=inv_m)},
-                     props=P, merge=False,
-                     # not proved (yet): the link between numpy's strided any()/min()/max() expressions and the
-                     # cell-position form of the spec; covered by the run-time checked stand-in
-                     stand_in=('inv-keep:this', 'inv-keep:no-earlier-segment', 'inv-init:no-vertex', 'inv-keep:done')))
+                            2: Loop(var='m', invariant=inv_m, hints=seg_steps,
+                                    keep_using={'no-earlier-segment': ['!strict', 'inv:no-earlier-segment', 'inv:range', 'hint:this-segment-misses']})},
+                     branches={1: {'orelse': no_vertex_steps}},
+                     props=P, merge=False, solver_opts={'arith.nl': False},
+                     # not proved (yet): preservation of `this` across one line (needs, per path, the link between numpy's
+                     # strided min()/max()/any() expressions and the cell-position form of the spec); covered by the
+                     # run-time checked stand-in.  The other three former stand-ins are now discharged (ghost steps).
+                     stand_in=('inv-keep:this',)))
